@@ -518,6 +518,9 @@ def inject_fault(rng, forms, ticks=True):
 def store_history(rng, nsteps):
     forms = [
         define("make-counter", lam([], [lam([], [set_("n", app("+", var("n"), lit(1))), var("n")])], defs=[("n", lit(0))])),
+        # (the closure is defined BEFORE the variable it uses: both are bindings of the frame of this call)
+        define("make-counter2", lam([], [var("next!")], defs=[("next!", lam([], [set_("count", app("+", var("count"), lit(1))), var("count")])), ("count", lit(0))])),
+        define("count", lit(100)),
         define("make-acc", lam(["total"], [lam(["k"], [set_("total", app("+", var("total"), var("k"))), var("total")])])),
         define("make-shared", lam([], [app("cons", lam([], [set_("n", app("+", var("n"), lit(1))), var("n")]), lam([], [var("n")]))], defs=[("n", lit(0))])),
         define("g", lit(0)),
@@ -563,7 +566,7 @@ def store_history(rng, nsteps):
         op = rng.choice(ops)
         if op == "newcounter":
             n = "c%d" % rng.randint(1, 5)
-            forms.append(define(n, app("make-counter")))
+            forms.append(define(n, app(rng.choice(["make-counter", "make-counter2"]))))
             if n not in counters: counters.append(n)
             if n in accs: accs.remove(n)
         elif op == "newloop":
@@ -699,6 +702,7 @@ def store_history(rng, nsteps):
         elif op == "probe":
             forms.append(app("list", *[var(v) for v in vecs]))
     forms.append(app("list", *[var(v) for v in vecs]))
+    forms.append(var("count"))          # the top-level count is nobody's state
     return forms
 
 
